@@ -324,9 +324,9 @@ def _stamp_cases(draw):
 def checks(tier):
     T = 16
     return [
-        Check("delay", _run_delay, strategy=_delay_cases(), examples={"quick": 2400, "thorough": T * 20000}, shards={"quick": 4, "thorough": 16}),
-        Check("delay_subscription", _run_delaysub, strategy=_delay_cases(), examples={"quick": 1200, "thorough": T * 8000}, shards={"quick": 4, "thorough": 16}),
-        Check("delay_with_mapper", _run_dwm, strategy=_dwm_cases(), examples={"quick": 2000, "thorough": T * 16000}, shards={"quick": 4, "thorough": 16}),
-        Check("stamp", _run_stamp, strategy=_stamp_cases(), examples={"quick": 800, "thorough": T * 6000}, shards={"quick": 4, "thorough": 16}),
-        Check("delay_with_mapper_subdelay", _run_dwm, strategy=_dwm_cases(subdelay=True), examples={"quick": 1000, "thorough": T * 8000}, shards={"quick": 4, "thorough": 16}),
+        Check("delay", _run_delay, strategy=_delay_cases(), examples={"quick": 2400, "thorough": T * 12000}, shards={"quick": 4, "thorough": 16}),
+        Check("delay_subscription", _run_delaysub, strategy=_delay_cases(), examples={"quick": 1200, "thorough": T * 5000}, shards={"quick": 4, "thorough": 16}),
+        Check("delay_with_mapper", _run_dwm, strategy=_dwm_cases(), examples={"quick": 2000, "thorough": T * 8000}, shards={"quick": 4, "thorough": 16}),
+        Check("stamp", _run_stamp, strategy=_stamp_cases(), examples={"quick": 800, "thorough": T * 4000}, shards={"quick": 4, "thorough": 16}),
+        Check("delay_with_mapper_subdelay", _run_dwm, strategy=_dwm_cases(subdelay=True), examples={"quick": 1000, "thorough": T * 5000}, shards={"quick": 4, "thorough": 16}),
     ]
